@@ -35,5 +35,15 @@ func checks() map[string]CheckDef {
 		Outside: []string{"stores with more rows than the bound (the step is uniform in the row count, but that is an argument, not a solver result)", "PostgreSQL (row order and plans are SQLite's)", "real SHA-256: the submitted header's hash is an arbitrary 256-bit value, parent links are assumed acyclic", "stored headers with zero work other than genesis (see known finding C01-F2)", "reachability of the symbolic pre-state through the public API (replay inserts the pre-state rows directly)"},
 		Stubs:  []string{"BlockHasher returns an arbitrary hash", "Notification records calls", "zerolog/metrics calls have no effect", "sqlx over the sqlm model of the SQL text with row order taken from EXPLAIN QUERY PLAN of the linked SQLite"},
 	})
+	add(CheckDef{
+		ID: "C02", Level: "model_checking",
+		Runs: []HRun{
+			{Pkg: "transports/http/endpoints/api/merkleroots", Func: "HarnessVerify", Quick: [][]int64{{2, 1}, {3, 2}}, Thorough: [][]int64{{3, 3}, {4, 2}, {5, 2}, {6, 1}},
+				Labels: []string{"C02/verdict", "C02/overall-is-worst", "C02/block-hash", "C02/echo-in-order", "C02/store-untouched"}},
+		},
+		Bounds:  []string{"arbitrary INV-H store of k rows (quick k<=3, thorough k<=6), request lists of n items (quick n<=2, thorough n<=3), every root an arbitrary string, every height any int32, the configured excess any 64-bit int"},
+		Outside: []string{"JSON binding of the request body and the gin handler shell (C16 covers the handler)", "'follows reorganisations' is the composition of this lemma (holds from every INV-H state) with C01 (Add maps INV-H to INV-H); the composition is an argument", "PostgreSQL"},
+		Stubs:   []string{"zerolog calls have no effect", "sqlx over the sqlm model"},
+	})
 	return m
 }
